@@ -64,7 +64,7 @@ def validate(w, obs, label):
 def sig(o):
     f = o["final"]
     states = set(f["snap"]) | {e2 for e in o["events"] for e2 in e["snap"]}
-    return {"mode": o["mode"], "final_mode": f["mode"], "result": f["result"],
+    return {"mode": o["mode"], "final_mode": f["mode"], "result": f["result"], "delete": bool((o.get("scn") or {}).get("delete")),
             "temps_left": f["temps"] > 0 and f["mode"] == "error",
             "partial_content": "other" in states or f.get("lnk") in ("other", "absent"),
             "recv": o["recv"] if (f["temps"] > 0 and f["mode"] == "error") else None}
@@ -91,6 +91,13 @@ def check(w):
         if s["ntoks"] == [1] * len(s["ntoks"]) or not quick:
             for rv in ("client", "daemon"):
                 scen.append(dict(s, recv=rv, mode="freeze", batch=True, long=True))
+    # ... and with --delete over a destination that holds extraneous entries and a directory next to a listed file whose
+    # name sorts between the directory and its child ("f0", "f0.x", "f0/c"): the delete pass runs before the first
+    # request and must leave every listed path alone
+    for s in base:
+        if s["kinds"][0] == "replace" or not quick:
+            for rv in ("client", "daemon"):
+                scen.append(dict(s, recv=rv, mode="freeze", batch=True, delete=True))
     for i, s in enumerate(scen):
         s["id"] = i + 1
     obs, summ = run(w, scen, "freeze")
